@@ -254,6 +254,9 @@ type engSpec struct {
 	Stalls      bool
 	CancelAt    time.Duration // >0: caller cancels the run at this simulated instant
 	GunErrAt    int           // k-th gun creation fails (-1 never); k=0 is the warm-up gun
+	// PanicOn: the PanicShot-th shot of instance PanicInst panics (the engine recovers it into a failed run)
+	PanicOn              bool
+	PanicInst, PanicShot int
 	// RealProvider: "" = core num provider; "uri" / "json" = the real uri provider / generic json provider over a file
 	// on the simulated disk, bounded by limit = Ammo
 	RealProvider string
@@ -261,7 +264,7 @@ type engSpec struct {
 
 func (s engSpec) describe() map[string]any {
 	return map[string]any{"startup": s.Startup.Desc, "rps": s.RPS.Desc, "rps_per_instance": s.PerInstance, "ammo_limit": s.Ammo,
-		"discard_overflow": s.Discard, "shots": s.Shots.String(), "stalls": s.Stalls, "cancel_at": s.CancelAt.String(), "gun_err_at": s.GunErrAt,
+		"discard_overflow": s.Discard, "shots": s.Shots.String(), "stalls": s.Stalls, "cancel_at": s.CancelAt.String(), "gun_err_at": s.GunErrAt, "shot_panic": fmt.Sprintf("%v inst=%d shot=%d", s.PanicOn, s.PanicInst, s.PanicShot),
 		"rps_tokens": s.RPS.Tokens, "startup_tokens": s.Startup.Tokens}
 }
 
@@ -292,6 +295,9 @@ func runEngine(r *R, sp engSpec, horizon time.Duration) *engResult {
 		script := stubs.DefaultGunScript()
 		script.ShotDur = sp.Shots.dur
 		script.NewErrAt = sp.GunErrAt
+		if sp.PanicOn {
+			script.PanicInst, script.PanicShot = sp.PanicInst, sp.PanicShot
+		}
 		fac := &stubs.GunFactory{Log: log, Script: script}
 		res.Factory = fac
 		startup, err := decodeSchedule(sp.Startup.Conf)
